@@ -76,6 +76,11 @@ class PipeWorld(OracleWorld):
         if p in oncecell.ALL:
             return oncecell.access(m, st, callee, args, term)
         r = OracleWorld.call(self, m, st, callee, args, term)
+        if r is None and len(args) == 1 and callee["name"] in ("Ok", "Err", "Some") and p.startswith(("core::result::Result::", "core::option::Option::")):
+            # a variant constructor used as a function (`Ok` passed as the identity step): builds a value, does nothing
+            return {"Ok": ip.ok, "Err": ip.err, "Some": ip.some}[callee["name"]](args[0])
+        if r is None and m.ctor_of(p) is not None:
+            return None
         if r is None and p not in m.models and not self.prog.is_ws(p) and not (p in self.prog.bodies and m.ext_simple(p)) and not callee.get("virtual"):
             raise UnexpectedCall("calls %s, which is not a step of the specified pipeline (every transforming or inspecting step must be one of the profile's rules)" % callee["full"])
         return r
